@@ -235,8 +235,9 @@ Print Assumptions R_link_is_concat.
    table a literal expression has the same value and a bare label the value moved by d, wherever it is evaluated;
    with R_insn_decodes / R_data_exact at the two bases (which give the bytes from exactly these values) that is the
    C09 law: relative operands and branch fields identical, immediates / absolutes / .word of a label moved by d.
-   Partial: the byte-level statement "the images are equal except in those words, which differ by d mod 2^16" is
-   not derived in Coq; it is judged in coqc on the model's and on the real images (Run/RRun.judge_reloc). *)
+   Partial here: this theorem is the layout half.  The byte-level statement "the images are equal except in those
+   words, which differ by d mod 2^16" is derived in Props/R_reloc.v (R_relocation_bytes, R_relocation_patch) from this
+   one; Run/RRun.judge_reloc additionally judges it in coqc on the model's and on the real images. *)
 Theorem R_relocation_partial : forall enc b d rest f f',
   reloc_ok rest = true -> d mod 2 = 0 -> 0 <= b < 65536 -> 0 <= b + d < 65536 ->
   assemble_full enc (at_base b rest) = XOk f -> assemble_full enc (at_base (b + d) rest) = XOk f' ->
